@@ -39,6 +39,8 @@ func (c Cfg) RefLayer(n uint64) int {
 		return refUintLayer(uint64(v), uint64(c.BF))
 	case "str":
 		return refUintLayer(crc64.Checksum([]byte(strKey(n)), crcTab), uint64(c.BF))
+	case "strx":
+		return refUintLayer(crc64.Checksum([]byte(strKey(n)+escFrag(n)), crcTab), uint64(c.BF))
 	case "bytes":
 		return refUintLayer(crc64.Checksum([]byte{byte(n >> 16), byte(n >> 8), byte(n)}, crcTab), uint64(c.BF))
 	}
@@ -46,8 +48,8 @@ func (c Cfg) RefLayer(n uint64) int {
 }
 
 var allBF = []uint{2, 3, 4, 16}
-var allKK = []string{"vk", "u64", "i64", "str", "bytes", "int", "uint", "sk", "skc"}
-var allVK = []string{"u64", "bytes", "str", "ptr", "iface", "long", "nb"}
+var allKK = []string{"vk", "u64", "i64", "str", "bytes", "int", "uint", "sk", "skc", "strx"}
+var allVK = []string{"u64", "bytes", "str", "ptr", "iface", "long", "nb", "esc"}
 var allCache = []string{"none", "big", "tiny"}
 
 func pick[T any](r *rand.Rand, xs []T) T { return xs[r.Intn(len(xs))] }
@@ -67,6 +69,7 @@ func RandCfg(r *rand.Rand) Cfg {
 	if r.Intn(12) == 0 {
 		c.KK, c.VKind, c.Fmt, c.Reg = "str", "str", "json", true
 	}
+	c.WideCmp = r.Intn(3) == 0
 	return c
 }
 
@@ -140,7 +143,7 @@ func Universe(r *rand.Rand, c Cfg, n int) []uint64 {
 				v = -v
 			}
 			add(uint64(v + i64bias))
-		case "str", "sk", "skc":
+		case "str", "sk", "skc", "strx":
 			add(uint64(r.Intn(26 * 26 * 26 * 26 * 26)))
 		case "bytes":
 			add(uint64(r.Intn(1 << 24)))
